@@ -69,6 +69,18 @@ def judgeCase (_k : Nat) (lines : List String) : Verdict := Id.run do
   let r0 : Reader := { todo := ps }
   let (r1, s1) := readFull first (k + 2) r0 k {}
   let (_, s2) := drain after chunk (resolved.length + ps.length + 4) r1 s1
+  -- a part reader that fails after `at` bytes of part `pi` (fault-injecting double; outside the
+  -- model, whose parts are absent-or-intact): the code hands data and error to the caller, who
+  -- stops — everything in front of the fault position is delivered, then the error
+  let faultTok := kv cfg "fault"
+  let faultPos : Option Nat := if faultTok.startsWith "err@" then
+      match ((faultTok.drop 4).toString.splitOn ":") with
+      | [pi, off] => some ((sizes.take (natOf pi)).foldl (· + ·) 0 + natOf off)
+      | _ => none
+    else none
+  let s2 : Seen := match faultPos with
+    | some pos => { delivered := resolved.take pos, ended := some false }
+    | none => s2
   let mterm := match s2.ended with | some true => "eof" | some false => "err" | none => "none"
   let iterm := if term == "eof" then "eof" else if term.startsWith "err" then "err" else term
   if mterm != iterm || s2.delivered != delivered then
@@ -98,12 +110,13 @@ def judgeCase (_k : Nat) (lines : List String) : Verdict := Id.run do
   let stepStats := script.map fun s => ("step_" ++ s, 1)
   return {
     diverge := div, violations := vio,
-    nontrivial := (!script.isEmpty || held) && (gone > 0 || stack == "sql" || held),
+    nontrivial := ((!script.isEmpty || held) && (gone > 0 || stack == "sql" || held)) || faultPos.isSome,
     fingerprint := fpLines [String.intercalate " " cfg, String.intercalate " " holdL, String.intercalate " " partsL, term, toString n],
     stats := addStats [("stack_" ++ stack, 1), ("ver_" ++ kv cfg "ver", 1), ("term_" ++ (if term == "eof" then "eof" else "error"), 1),
       ("interrupted_mid_stream", if k > 0 && k < resolved.length then 1 else 0),
       ("parts_gone", gone), ("writer_blocked_by_reader", blocked),
       ("writer_held_in_commit_window", if held then 1 else 0),
+      ("part_reader_fails_with_data_and_error", if faultPos.isSome then 1 else 0),
       ("held_writer_on_another_object", if held && holdOp.startsWith "other" then 1 else 0),
       ("read_after_error_delivered_bytes", if natOf (kv fin "after") > 0 && term != "eof" then 1 else 0),
       ("ranged", if kv cfg "range" == "~" then 0 else 1)] stepStats,
